@@ -149,7 +149,9 @@ def to_wikitext(
                 parts.append("\n|+ {} |\n".format(tc_attrs))
             else:
                 parts.append("\n|+\n")
-            parts.append(recurse(node.children))
+            # The caption text starts a new line here; a leading blank
+            # (from "|+ caption") would turn it into preformatted text.
+            parts.append(recurse(node.children).lstrip(" \t"))
         elif kind == NodeKind.TABLE_ROW:
             parts.append("\n|- {}\n".format(to_attrs(node)))
             parts.append(recurse(node.children))
